@@ -8,6 +8,7 @@ from gen import trxd_proto
 ID = "C17"
 LEVEL = "proof"
 LEAN_MODULES = ["OsmoVerif.Props.C17"]
+DRIVER_MODULES = ["Codec"]
 LEAN_MODEL_MODULES = ["OsmoVerif.Model.Codec", "OsmoVerif.Spec.Codec", "OsmoVerif.Spec.TrxdPduLayout", "OsmoVerif.Gen.TrxdProto",
                       "OsmoVerif.Lemmas.CodecPdu", "OsmoVerif.Props.C16"]
 ASSUMPTIONS = [
